@@ -143,6 +143,12 @@ FACTS = {"C01": ["DispatchMerge"], "C02": ["DispatchMerge"], "C03": ["Formats", 
          "C10": ["DispatchRefs"], "C11": ["DispatchOutput"], "C12": ["DispatchEval"], "C13": ["DispatchEval"], "C14": ["DispatchEval"],
          "C15": ["StateTools"], "C16": ["StateTools"], "C17": ["StateTools"], "C18": ["Formats", "Reads", "StateParser", "StateFiles"], "C19": ["StateParser"],
          "C20": ["Formats", "StateTools"]}
+# translation-equivalence modules (BklProofs/Facts/Trans<Unit>.lean over the regenerated Generated/Trans/<Unit>.lean):
+# "what the Go source says now = what the model says", per property that rests on that source file
+TRANS = {"C06": ["TransValidate", "TransFinalize"], "C07": ["TransValidate"], "C09": ["TransFinalize"],
+         "C01": ["TransMatch"], "C02": ["TransMatch"], "C10": ["TransMatch"]}
+for _p, _ms in TRANS.items():
+    FACTS[_p] = FACTS.get(_p, []) + _ms
 
 
 def audit_axioms(pid):
@@ -206,7 +212,21 @@ def gen_facts():
         old = open(path).read() if os.path.exists(path) else None
         if old != text:
             open(path, "w").write(text)
+    f["_gotrans"] = gen_trans()
     return f
+
+
+def gen_trans():
+    """Translate the listed Go functions of REPO's working tree to Lean (harness/cmd/gotrans ->
+    lean/Generated/Trans/<Unit>.lean, rewritten only when the text changed).  Returns the translator's
+    complaints (functions that left the translatable fragment, or disappeared): a non-empty list is a
+    broken obligation of every property whose theorems rest on that unit."""
+    exe = os.path.join(BIN, "gotrans")
+    if not os.path.exists(exe):
+        return ["translator binary missing (run setup.sh)"]
+    with Lock("lake"):
+        r = sh([exe, REPO, os.path.join(LEAN, "Generated", "Trans")], check=False, timeout=300)
+    return [l for l in (r.stderr or "").split("\n") if l.strip()] if r.returncode != 0 else []
 
 
 def proof_step(pid, extra_targets=()):
@@ -230,7 +250,12 @@ def proof_step(pid, extra_targets=()):
         fok, fout = build_lean(["BklProofs.Facts." + g])
         if not fok:
             errs = [l for l in fout.split("\n") if "error" in l][:10]
-            broken.append({"obligation": f"fact theorems BklProofs.Facts.{g} over the regenerated Generated/Facts.lean", "detail": errs})
+            if g.startswith("Trans"):
+                broken.append({"obligation": f"translation equivalence BklProofs.Facts.{g}: the Lean translation of /repo's current source "
+                                             f"(Generated/Trans/{g[5:]}.lean, harness/cmd/gotrans) is no longer proved equal to the model",
+                               "detail": ((facts or {}).get("_gotrans") or []) + errs})
+            else:
+                broken.append({"obligation": f"fact theorems BklProofs.Facts.{g} over the regenerated Generated/Facts.lean", "detail": errs})
             continue
         fth, fo, fk = audit_axioms("Facts" + g)
         thms.update(fth)
